@@ -522,6 +522,23 @@ Section C01_pass.
      in (res, (ll ++ lr ++ lx)%list)).
   Proof. exact (conditional_short_circuit num add sub mul div pow neg absf ltb leb eqb zero fun1 fun2 flagged lit o l r a b catch t v x y ll lr). Qed.
 
+  (* `l <o> r and c2` with the comparison false goes straight to the alternative, `l <o> r or c2` with it true straight to the
+     value: the second condition is neither evaluated nor read *)
+  Theorem C01_and_skips_second_condition o (l r : sexpr) (c2 : scond) (a b : sexpr) catch t v x y ll lr :
+    eval_expr catch t v (expr_map string num lit l) = (EVal x, ll) ->
+    eval_expr catch t v (expr_map string num lit r) = (EVal y, lr) ->
+    cmp_sem num ltb leb eqb o x y = false ->
+    eval_expr catch t v (expr_map string num lit (mk_if (SAnd (SCmp o l r) c2) a b)) =
+    (let '(res, lx) := eval_expr catch t v (expr_map string num lit b) in (res, (ll ++ lr ++ lx)%list)).
+  Proof. exact (and_short_circuit num add sub mul div pow neg absf ltb leb eqb zero fun1 fun2 flagged lit o l r c2 a b catch t v x y ll lr). Qed.
+  Theorem C01_or_skips_second_condition o (l r : sexpr) (c2 : scond) (a b : sexpr) catch t v x y ll lr :
+    eval_expr catch t v (expr_map string num lit l) = (EVal x, ll) ->
+    eval_expr catch t v (expr_map string num lit r) = (EVal y, lr) ->
+    cmp_sem num ltb leb eqb o x y = true ->
+    eval_expr catch t v (expr_map string num lit (mk_if (SOr (SCmp o l r) c2) a b)) =
+    (let '(res, lx) := eval_expr catch t v (expr_map string num lit a) in (res, (ll ++ lr ++ lx)%list)).
+  Proof. exact (or_short_circuit num add sub mul div pow neg absf ltb leb eqb zero fun1 fun2 flagged lit o l r c2 a b catch t v x y ll lr). Qed.
+
   (* one statement: the value of its right-hand side goes into its left-hand cell; nothing else happens *)
   Theorem C01_statement_effect y k (e : sexpr) catch t v x le q :
     eval_expr catch t v (expr_map string num lit e) = (EVal x, le) ->
@@ -544,6 +561,8 @@ Print Assumptions C01_feasible_period_reads_at_written_offsets.
 Print Assumptions C01_pass_gauss_seidel.
 Print Assumptions C01_pass_is_gauss_seidel_fold.
 Print Assumptions C01_conditional_reads_only_the_branch_taken.
+Print Assumptions C01_and_skips_second_condition.
+Print Assumptions C01_or_skips_second_condition.
 Print Assumptions C01_statement_effect.
 Print Assumptions C01_value_depends_only_on_written_terms.
 
